@@ -257,3 +257,6 @@ def check_views(repo, rep, which):
 
 def check(repo, rep, tier):
   check_views(repo, rep, 'C01')
+  # symmetry: neither point of a pair is converted to the other's dtype
+  from . import c06b
+  c06b.rule_no_cross_dtype_cast(repo, rep)
